@@ -45,3 +45,24 @@ fn k4_as_bool() {
     }
     if let Some(x) = &a { assert!(x.as_binary() == alpha_truth(x), "Alpha::as_binary coercion as documented"); }
 }
+
+// ---- C10 / C06 clause: blank and comment-only lines yield no rule
+pub(crate) fn tok(kind: TokenKind, start: usize) -> Token {
+    Token { kind, value: Rc::from(""), position: Position::new(kani::any(), kani::any(), start, start + 1) }
+}
+
+//% props=C10 tier=quick kind=P pair=Parser::parse,Parser::new clause="a token list starting with Eol (blank line) parses to Ok(None): no rule is produced"
+#[kani::proof]
+#[kani::unwind(4)]
+fn k10_parse_blank() {
+    let r = Parser::new(vec![tok(TokenKind::Eol, 0)], kani::any(), kani::any()).parse();
+    assert!(matches!(r, Ok(None)), "blank line -> no rule");
+}
+
+//% props=C10 tier=thorough kind=P timeout=1800 pair=Parser::parse,Parser::new clause="a token list starting with Comment parses to Ok(None): no rule is produced"
+#[kani::proof]
+#[kani::unwind(4)]
+fn k10_parse_comment() {
+    let r2 = Parser::new(vec![tok(TokenKind::Comment, 0), tok(TokenKind::Eol, 1)], kani::any(), kani::any()).parse();
+    assert!(matches!(r2, Ok(None)), "comment-only line -> no rule");
+}
